@@ -23,7 +23,8 @@ KV_TEXT = {
     "keytarget": "target = x", "keytargetdbg": "target:? = x", "refprefix": "referrer = x", "refprefixnum": "ref_count = 3",
     "refprefixdbg": "refs:? = x",
     # values that contain a string literal after something else (a byte string, a comparison)
-    "bytestr": '{k} = b"x"', "cmpstr": '{k} = z == "root"',
+    "bytestr": '{k} = b"x"', "cmpstr": '{k} = z == "root"', "charquote": "{k} = z.find('\"').is_some()",
+    "rawstrval": '{k} = r#"a"b"#',
     "dbg": "{k}:? = x", "debug": "{k}:debug = x", "disp": "{k}:% = x", "display": "{k}:display = x",
     "shortdbg": "x:?", "err": "{k}:err = e", "sval": "{k}:sval = x", "serde": "{k}:serde = x",
     "ref=7": "ref = 7", "ref=0": "ref = 0", "ref=max": "ref = 4294967295", "ref=07": "ref = 07", "ref=x": "ref = x",
@@ -31,7 +32,7 @@ KV_TEXT = {
     "ref=hex": "ref = 0x7", "ref=suffixed": "ref = 7u32", "strref": '{k} = "[ref: 5] v"',
 }
 # shapes that do not compile against the log crate as available offline (feature kv only) or are not valid Rust
-KV_NOCOMPILE = {"err", "sval", "serde", "ref=over", "ref=07", "ref=neg"}
+KV_NOCOMPILE = {"err", "sval", "serde", "ref=over", "ref=07", "ref=neg", "bytestr"}      # b"x": [u8; 1] is not a log value
 
 MSG_TEXT = {
     "plain": "s{u} hello", "leadspace": "  s{u} padded", "slashes": "// s{u} not a comment",
@@ -55,6 +56,8 @@ CONTEXT = {
     # backslash, a byte character, a lifetime
     "afterrawstring": ('    let _r = r#"say "hi" there"#; ', ";"), "afterrawbackslash": ('    let _w = r"C:\\dir\\"; ', ";"),
     "afterbytechar": ("    let _b = b'\"'; ", ";"), "afterlifetime": ("    let _l: &'static str = \"s\"; ", ";"),
+    # character literals written with multi-character escapes next to a quote character
+    "afterhexchar": ("    let _q = ['\\x41','\"']; ", ";"), "afterunicodechar": ("    let _v = ('\\u{22}', '\"', '\\u{1F980}'); ", ";"),
     # a string literal containing comment openers earlier on the same line
     "afterurl": ('    let _u = "http://example.org/*x"; ', ";"),
     # an already referenced statement (in both styles) with multi-byte text earlier on the same line
